@@ -5,7 +5,7 @@
 From Coq Require Import List String Bool Permutation.
 Import ListNotations.
 From DI Require Import Syntax Tokens Bounds Param Subs Superset Substitute Spec RustSem Group Search Gen Validate IMap Hygiene Dispatch Examples ExamplesGroup ExamplesF16.
-From DI.proofs Require Import Basics SupersetSound SupersetExact SupersetComplete SupersetWf SubstituteProofs SubstituteSpec BoundsProofs DispatchProofs GroupProofs SearchProofs GenProofs ParamProofs ParamAlpha RustSemProofs ValidateProofs IMapProofs HygieneProofs.
+From DI.proofs Require Import Basics SupersetSound SupersetExact SupersetComplete SupersetWf SubstituteProofs SubstituteSpec BoundsProofs DispatchProofs GroupProofs SearchProofs SearchFlat GenProofs ParamProofs ParamAlpha RustSemProofs ValidateProofs IMapProofs HygieneProofs.
 
 (* ===================================================================================== *)
 (* C09 -- header generalisation is exact first-order matching                             *)
@@ -516,6 +516,42 @@ Theorem C03_distinguishable_rows_accepted_partial : forall rows,
   ForallOrdPairs distinguishable rows -> rows_distinct rows = true.
 Proof. exact distinguishable_rows_accepted. Qed.
 Print Assumptions C03_distinguishable_rows_accepted_partial.
+
+(* acceptance of the basic documented shape, for the search FUNCTION (Search.v, which the check
+   compares with the macro's grouping on every invocation): n blocks with one header, each
+   bounding the same type by the same trait (bindings spelled differently) and binding one
+   associated type to pairwise non-unifiable payloads, form ONE family with all n members and
+   the rows [p_0] .. [p_(n-1)] -- for every n, header and payloads.  The proof composes
+   completeness of the matcher (identity substitution of the header), C10's identity law and
+   the search model. *)
+Theorem C03_flat_family_accepted : forall (Hd B : term) (a : string) (n : nat) (blk T p : nat -> term),
+  0 < n ->
+  NoDup (map blk (seq 0 n)) ->
+  (forall i, i < n -> gid_of (blk i) = Hd) ->
+  cwf [] Hd = true ->
+  (forall i, i < n -> find_bounds (blk i) = {| ib_bounds := [((B, T i), [(a, p i)])]; ib_unsized := [] |}) ->
+  (forall i j, i < n -> j < n -> tb_eqb (T i) (T j) = true) ->
+  (forall i j, i < n -> j < n -> i <> j -> sup (p i) (p j) = None) ->
+  forall fuel, n < fuel ->
+  exists g, search fuel (map blk (seq 0 n)) = Some [(Hd, (g, seq 0 n))] /\
+            abg_payloads g = map (fun i => [Some (p i)]) (seq 0 n).
+Proof. exact flat_family_search. Qed.
+Print Assumptions C03_flat_family_accepted.
+
+(* the hypotheses are met by two blocks of the example invocation
+   (impl<T: D<G = GA>, U> K for (T, U)  and  impl<A: D<G = GB>, B> K for (A, B)) *)
+Example C03_flat_nonvacuous :
+  let b0 := nth 0 ex_blocks (Node (K "" "") []) in
+  let b2 := nth 2 ex_blocks (Node (K "" "") []) in
+  b0 <> b2 /\ gid_of b0 = gid_of b2 /\ cwf [] (gid_of b0) = true /\
+  match ib_bounds (find_bounds b0), ib_bounds (find_bounds b2), ib_unsized (find_bounds b0), ib_unsized (find_bounds b2) with
+  | [((B0, T0), [(a0, p0)])], [((B2, T2), [(a2, p2)])], [], [] =>
+      term_eqb B0 B2 && String.eqb a0 a2 && tb_eqb T0 T2 && tb_eqb T2 T0 &&
+      negb (is_some (sup p0 p2)) && negb (is_some (sup p2 p0))
+  | _, _, _, _ => false
+  end = true.
+Proof. vm_compute. repeat split. discriminate. Qed.
+Print Assumptions C03_flat_nonvacuous.
 
 (* ===================================================================================== *)
 (* C06 -- independence from parameter names (canonicalisation commutes with any consistent   *)
